@@ -354,6 +354,18 @@ Definition generate_io (c : config) (name : str) (s : fs) : fs * outcome_io :=
 Definition io_refused (c : config) (name : str) (s : fs) : bool :=
   match io_hit (io_run c name s) with Some _ => true | None => false end.
 
+(* ---------- the command line entry (cli.py main) ---------- *)
+(* flags given on the command line; None = flag absent.  An omitted --core-package becomes
+   <output-package>.core BEFORE generate is called (so generate always sees an explicit core package). *)
+Record cli_args := { a_out : list str; a_core : option (list str); a_force : option bool; a_no_postprocess : option bool }.
+Definition cli_config (c : config) (a : cli_args) : config :=
+  {| root := root c; tmp := tmp c; cwd := cwd c;
+     out_pkg := a_out a;
+     core_pkg := Some (match a_core a with Some k => k | None => a_out a ++ [s_core] end);
+     force := match a_force a with Some b => b | None => cli_force_default end;
+     post := negb (match a_no_postprocess a with Some b => b | None => cli_no_postprocess_default end);
+     tags := tags c; models := models c |}.
+
 (* ---------- the property ---------- *)
 Definition restrict_root (c : config) (s : fs) : fs := filter (fun kv => under (root c) (fst kv)) s.
 
